@@ -19,6 +19,7 @@ fn affine_in(t: Tid, x: &HashSet<u32>, memo: &mut HashMap<Tid, Option<Lin>>) -> 
     }
     let r: Option<Lin> = match sx::node_of(t) {
         Node::Const(c) => Some((BTreeMap::new(), c)),
+        Node::Limb(_, _) => Some((BTreeMap::new(), sx::shadow_of(t))),
         Node::Var(v) => {
             if x.contains(&v) {
                 let mut m = BTreeMap::new();
